@@ -17,17 +17,25 @@ from harness.pyval import enc, dec, coq_val, py_fn, coq_fn, py_fn2, coq_fn2, exn
 class Ctx(object):
     """per-run context: error router, taps"""
 
-    def __init__(self, record):
+    def __init__(self, record, defer_dead=False):
         self.record = record
         self.router = None
+        self.errors = None
+        self.defer_dead = defer_dead      # the caller subscribes the dead-letter observable itself (once per run)
         self.taps = {}
+
+    def subscribe_dead(self):
+        if self.errors is not None:
+            return self.errors.subscribe(on_next=lambda e: self.record(['dead', exn_code(e)]),
+                                         on_completed=lambda: self.record(['dead_completed']))
+        return None
 
     def route(self):
         if self.router is None:
-            errors, route_errors = rs.error.create_error_router()
+            self.errors, route_errors = rs.error.create_error_router()
             self.router = route_errors
-            errors.subscribe(on_next=lambda e: self.record(['dead', exn_code(e)]),
-                             on_completed=lambda: self.record(['dead_completed']))
+            if not self.defer_dead:
+                self.subscribe_dead()
         return self.router()
 
 
@@ -261,6 +269,8 @@ def coq_ops(ast):
                 out.append('OMap FSqrtOpt')
         elif k == 'to_list':
             out.append('OScan A2Append (VList []) TObj true None')
+        elif k == 'to_array' and n[1] in ('q', 'd'):
+            out.append('OScan (A2ArrAppend %s) (VList []) TObj true None' % ('true' if n[1] == 'd' else 'false'))
         elif k == 'batch':
             out.append('OScan (A2Batch (%d)%%Z) (VTuple [VList []; VBool false]) TObj false (Some FBatchTerm)' % n[1])
             out.append('OFilter (FComp (FNth 1%nat) (FEq (VBool true)))')
@@ -345,7 +355,7 @@ def coq_muxcase(ast, trace, obs):
 # ------------------------------------------------------------------------------------------------
 # running the real code
 # ------------------------------------------------------------------------------------------------
-def run_mux(ast, trace, taps=False, split_at=None):
+def run_mux(ast, trace, taps=False, split_at=None, mutate_emitted=False):
     """Feeds the mux event trace (['c',key] / ['n',key,encval] / ['d',key] / ['e',key,code]) one event at a
     time into cast_as_mux_observable + with_store(pipeline); returns what the subscriber (and the dead-letter
     observable) received while each event was being pushed."""
@@ -361,6 +371,9 @@ def run_mux(ast, trace, taps=False, split_at=None):
             t = type(i)
             if t is rs.OnNextMux:
                 cur.append(['n', key_list(i.key), enc(i.item)])
+                if mutate_emitted and type(i.item) is list:
+                    # a consumer that changes what it was given in place: must not reach any operator state
+                    i.item.append(99)
             elif t is rs.OnCreateMux:
                 cur.append(['c', key_list(i.key)])
             elif t is rs.OnCompletedMux:
@@ -404,6 +417,60 @@ def run_mux(ast, trace, taps=False, split_at=None):
         res['taps'] = {str(t): l for t, l in ctx.taps.items()}
         res['tap_marks'] = tap_marks
     return res
+
+
+def run_mux_twice(ast, trace, runs=2):
+    """ONE pipeline object (operators, store manager, piped observable, error router built once) subscribed
+    `runs` times in sequence to a cold source that replays the trace; every subscription (and every subscription
+    of the dead-letter observable) must behave like the first.  Returns [{'steps', 'final'}] per run."""
+    box = {'cur': []}
+    ctx = Ctx(lambda x: box['cur'].append(x), defer_dead=True)
+    sink = io.StringIO()
+    out = []
+    with contextlib.redirect_stdout(sink):
+        ops = build(ast, ctx)
+        store = rs.state.StoreManager(store_factory=rs.state.MemoryStore)
+        stepbox = {'steps': []}
+
+        def source(observer, scheduler):
+            for e in trace:
+                if e[0] == 'c':
+                    observer.on_next(rs.OnCreateMux(key_tuple(e[1])))
+                elif e[0] == 'n':
+                    observer.on_next(rs.OnNextMux(key_tuple(e[1]), dec(e[2])))
+                elif e[0] == 'd':
+                    observer.on_next(rs.OnCompletedMux(key_tuple(e[1])))
+                elif e[0] == 'e':
+                    observer.on_next(rs.OnErrorMux(key_tuple(e[1]), pyval_exn(e[2])))
+                stepbox['steps'].append(list(box['cur']))
+                del box['cur'][:]
+            observer.on_completed()
+
+        def on_next(i):
+            t = type(i)
+            cur = box['cur']
+            if t is rs.OnNextMux:
+                cur.append(['n', key_list(i.key), enc(i.item)])
+            elif t is rs.OnCreateMux:
+                cur.append(['c', key_list(i.key)])
+            elif t is rs.OnCompletedMux:
+                cur.append(['d', key_list(i.key)])
+            elif t is rs.OnErrorMux:
+                cur.append(['e', key_list(i.key), exn_code(i.error)])
+            else:
+                cur.append(['?', type(i).__name__])
+
+        piped = rx.create(source).pipe(rs.cast_as_mux_observable(), rs.state.with_store(store, rx.pipe(*ops)))
+        for _ in range(runs):
+            box['cur'] = []
+            stepbox['steps'] = []
+            d = ctx.subscribe_dead()
+            piped.subscribe(on_next=on_next, on_error=lambda e: box['cur'].append(['fatal', exn_code(e)]),
+                            on_completed=lambda: box['cur'].append(['completed']))
+            out.append({'steps': stepbox['steps'], 'final': list(box['cur'])})
+            if d is not None:
+                d.dispose()
+    return out
 
 
 def run_mux_plain_source(ast, items, entry='memory_store'):
